@@ -99,6 +99,14 @@ def replay_and_judge(ctx, name, vecs, subjects_file, shards):
         if subjects_file:
             a += ["-subjects", subjects_file]
         ctx.run_vh(a)
+        if os.environ.get("VERIF_SELFTEST") == "corrupt" and ix == 0:
+            # falsify one recorded execution: the first case that was rewritten is recorded as left unchanged
+            cs = read_ndjson(cf)
+            for c in cs:
+                if c.get("changed") == "1" and not c.get("err"):
+                    c["out"] = c["in"]
+                    break
+            write_ndjson(cf, cs)
         ctx.tlc("TraceRewrite", CFG_TRACE % dict(cases=cf, out=of), "trace-%s-%d" % (name, ix), workers=1, timeout=3000)
         cases = read_ndjson(cf)
         verdicts = read_ndjson(of)
